@@ -218,6 +218,20 @@ class Interp:
             if isinstance(base, ListV) and base.kind == "lit" and isinstance(idx, Num) and idx.r.as_int() is not None:
                 base.items[idx.r.as_int()] = v
                 return
+            if isinstance(base, ListV) and base.kind == "series" and not base.closed and getattr(base, "filled_by_index", False) and isinstance(idx, Num):
+                # a preallocated list filled by index in its loop: the store at position len(init) + (k - lo) is this step's append
+                want = Rat.atom(base.k) - base.lo + len(base.init)
+                if getattr(base, "overwrite_current", False) and idx.r == want - 1:
+                    if getattr(base, "final_k", None) is not None:
+                        raise Unmodelled("second completion of the current record of %s at %s" % (base.name, frame.loc(target)))
+                    base.final_k = v
+                    return
+                if idx.r == want:
+                    if any(n is target for n in getattr(base, "append_nodes", [])):
+                        raise Unmodelled("second store into the same slot of %s at %s" % (base.name, frame.loc(target)))
+                    self.series_append(base, v, frame, target)
+                    return
+                raise Unmodelled("store into %s at an index that is not this step's slot at %s" % (base.name, frame.loc(target)))
             if isinstance(base, ListV):
                 # element store into a symbolic list: remember it as an override
                 ov = getattr(base, "overrides", None)
